@@ -13,6 +13,13 @@ depth), a statement starting with `static` / `thread_local` (after optional `con
 Declarations at namespace or class scope (globals, static members, static member functions) are not listed: they are visible in the
 translation (translated constants) or not state at all. Only the Python standard library is used.
 
+Signature census (same files, same pin): the translator names the parameters of a translated function after the scalar leaves the
+function READS and orders them — and the components of its result, the leaves it WRITES — alphabetically; the bridge theorems apply
+the translated functions to the model's fields. A change that makes a function read (or write) a DIFFERENT member of the same type
+keeps the Lean type of the definition, so a bridge stated with positional arguments can keep checking although the code now uses
+another member. `signatures` lists, per definition of `Generated/Src<Cxx>.lean` (as regenerated in this run), its explicit parameter
+names, the carried variables of a loop function and the names of its result components; the pin file fixes that list by `rfl` too.
+
 usage (coordinator): hidden_state.py --write-pins     regenerates Generated/Statics*.lean AND the pin files from /repo (baseline)"""
 import json
 import os
@@ -156,6 +163,25 @@ def census(repo, pid):
     return sorted(out)
 
 
+def signatures(lean, pid):
+    """-> ['<def name> (<explicit parameter names>) carried: <..> result: <..>'] of Generated/Src<pid>.lean ([] when there is none)"""
+    path = os.path.join(lean, 'RomeaModel', 'Generated', 'Src%s.lean' % pid)
+    if not os.path.exists(path):
+        return []
+    txt = open(path, errors='replace').read()
+    out = []
+    for m in re.finditer(r'(?:/--((?:(?!-/).)*)-/\s*)?^(?:noncomputable\s+|partial\s+)*def\s+(\S+)([^\n]*)$', txt, re.M | re.S):
+        doc, name, head = m.group(1) or '', m.group(2), m.group(3)
+        params = []
+        for b in re.finditer(r'\(([^():]+?)\s*:', head):
+            params += b.group(1).split()
+        res = re.search(r'result:\s*([^\n]*?)\s*(?:-/|$)', doc, re.M)
+        car = re.search(r'carried variables:\s*([^\n]*?)\s*(?:-/|$)', doc, re.M)
+        out.append('%s (%s)%s%s' % (name, ' '.join(params), ' carried: ' + car.group(1).strip() if car else '',
+                                    ' result: ' + res.group(1).strip() if res else ''))
+    return out
+
+
 def _lean_str(x):
     return '"' + x.replace('\\', '\\\\').replace('"', '\\"') + '"'
 
@@ -166,16 +192,18 @@ def _list_lit(items, indent):
     return '[\n' + ',\n'.join(indent + _lean_str(x) for x in items) + ']'
 
 
-def generated_text(pid, items):
+def generated_text(pid, items, sigs=()):
     return ('/-! GENERATED by tools/hidden_state.py from the CURRENT source of /repo on every check run (stage G) — do not edit.\n'
             '    Function-local `static` / `thread_local` declarations in the anchored files of %s (state outside the objects the model\n'
             '    describes); pinned by `RomeaProofs/Hidden/%s.lean`. -/\n'
             'namespace Romea.Generated.%s\n\n'
             'def hiddenState : List String := %s\n\n'
-            'end Romea.Generated.%s\n' % (pid, pid, pid, _list_lit(items, '  '), pid))
+            '/-- per definition of Generated/Src%s.lean: explicit parameters, loop-carried variables, result components (by name) -/\n'
+            'def signatures : List String := %s\n\n'
+            'end Romea.Generated.%s\n' % (pid, pid, pid, _list_lit(items, '  '), pid, _list_lit(list(sigs), '  '), pid))
 
 
-def pin_text(pid, items):
+def pin_text(pid, items, sigs=()):
     return ('import RomeaModel.Generated.Statics%s\n'
             '/-!\n# Hidden-state pin for %s\n\n'
             'The model of %s is a function of call arguments and of the members of the objects it describes. `Generated/Statics%s.lean` is\n'
@@ -186,19 +214,24 @@ def pin_text(pid, items):
             'after reviewing an intended change of the list, regenerate with `python3 tools/hidden_state.py --write-pins`.\n-/\n'
             'namespace Romea.Hidden.%s\n\n'
             'theorem hidden_state_as_recorded : Romea.Generated.%s.hiddenState = %s := by rfl\n\n'
-            'end Romea.Hidden.%s\n' % (pid, pid, pid, pid, pid, pid, _list_lit(items, '    '), pid))
+            '/-- The names (not only the types) of what every translated function reads, carries through its loops and returns are those\n'
+            '    the bridge theorems were written against: a function that now reads or writes ANOTHER member of the same type keeps its Lean\n'
+            '    type, and a positional application in a bridge would keep checking. -/\n'
+            'theorem signatures_as_recorded : Romea.Generated.%s.signatures = %s := by rfl\n\n'
+            'end Romea.Hidden.%s\n' % (pid, pid, pid, pid, pid, pid, _list_lit(items, '    '), pid, _list_lit(list(sigs), '    '), pid))
 
 
 def regen(ctx, pid):
     """stage-G hook (called by check.py for every property): rewrites the generated census only when it changes"""
     items = census(ctx['repo'], pid)
     path = os.path.join(ctx['lean'], 'RomeaModel', 'Generated', 'Statics%s.lean' % pid)
-    text = generated_text(pid, items)
+    sigs = signatures(ctx['lean'], pid)
+    text = generated_text(pid, items, sigs)
     old = open(path).read() if os.path.exists(path) else None
     if old != text:
         with open(path, 'w') as f:
             f.write(text)
-    return {'hidden_state': {'entries': len(items), 'rewritten': old != text}}
+    return {'hidden_state': {'entries': len(items), 'signatures': len(sigs), 'rewritten': old != text}}
 
 
 def main():
@@ -208,9 +241,10 @@ def main():
         for l in open(os.path.join(V, 'properties.jsonl')):
             pid = json.loads(l)['id']
             items = census('/repo', pid)
-            open(os.path.join(lean, 'RomeaModel', 'Generated', 'Statics%s.lean' % pid), 'w').write(generated_text(pid, items))
-            open(os.path.join(lean, 'RomeaProofs', 'Hidden', '%s.lean' % pid), 'w').write(pin_text(pid, items))
-            print(pid, len(items))
+            sigs = signatures(lean, pid)
+            open(os.path.join(lean, 'RomeaModel', 'Generated', 'Statics%s.lean' % pid), 'w').write(generated_text(pid, items, sigs))
+            open(os.path.join(lean, 'RomeaProofs', 'Hidden', '%s.lean' % pid), 'w').write(pin_text(pid, items, sigs))
+            print(pid, len(items), len(sigs))
             for x in items:
                 print('   ', x[:150])
     else:
